@@ -4,6 +4,7 @@ package main
 // and to the Gallina term the Coq model evaluates, so the two sides are fed from a single source.
 
 import (
+	"math/big"
 	"encoding/hex"
 	"encoding/json"
 	"fmt"
@@ -96,6 +97,7 @@ type Cfg struct {
 	Issuer     string
 	Profile    string
 	Serial     int64
+	SerialBig  string // a serial number beyond int64, written into the file as a plain number
 	IssuerUID  string
 	SubjectUID string
 	Validity   Validity
@@ -140,7 +142,12 @@ func critKV(c int) omap {
 	return omap{{"critical", c == 1}}
 }
 
-func gnMap(g *[2]string) omap { return omap{{"type", g[0]}, {"name", g[1]}} }
+func gnMap(g *[2]string) omap {
+	if g[0] == "-" { // the entry has no "type" key at all (the schema requires neither key)
+		return omap{{"name", g[1]}}
+	}
+	return omap{{"type", g[0]}, {"name", g[1]}}
+}
 func namingMap(n *Naming) omap {
 	o := omap{}
 	if n.Oid != "" {
@@ -309,7 +316,9 @@ func (c Cfg) tree() omap {
 	if c.Profile != "" {
 		o = append(o, kv{"profile", c.Profile})
 	}
-	if c.Serial != 0 {
+	if c.SerialBig != "" {
+		o = append(o, kv{"serialNumber", json.Number(c.SerialBig)})
+	} else if c.Serial != 0 {
 		o = append(o, kv{"serialNumber", c.Serial})
 	}
 	if c.IssuerUID != "" {
@@ -484,7 +493,15 @@ func cqGn(g *[2]string) string {
 	if g == nil {
 		return "([], [])"
 	}
-	return "(" + cqB(g[0]) + ", " + cqB(g[1]) + ")"
+	return "(" + cqB(gnType(g[0])) + ", " + cqB(g[1]) + ")"
+}
+
+// "-" stands for "no type key in the file", which Go reads as the empty string
+func gnType(t string) string {
+	if t == "-" {
+		return ""
+	}
+	return t
 }
 func cqNaming(n *Naming) string {
 	if n == nil {
@@ -510,7 +527,7 @@ func (e Ext) Coq() string {
 	case "aia":
 		return fmt.Sprintf("(XAia %s %s %s)", raw, crit, cqOptList(hc, e.List, cqB))
 	case "san":
-		return fmt.Sprintf("(XSan %s %s %s)", raw, crit, cqOptList(hc, e.Names, func(n [2]string) string { return "(" + cqB(n[0]) + ", " + cqB(n[1]) + ")" }))
+		return fmt.Sprintf("(XSan %s %s %s)", raw, crit, cqOptList(hc, e.Names, func(n [2]string) string { return "(" + cqB(gnType(n[0])) + ", " + cqB(n[1]) + ")" }))
 	case "bc":
 		if !hc {
 			return fmt.Sprintf("(XBc %s %s None)", raw, crit)
@@ -561,7 +578,16 @@ func (m Manip) Coq() string {
 }
 
 func (c Cfg) Coq() string {
-	return "(mkCertCfg " + cqB(c.Subject) + " " + cqZ(c.Serial) + " " + cqB(c.IssuerUID) + " " + cqB(c.SubjectUID) + " " + c.Validity.Coq() + " " +
+	serial := cqZ(c.Serial)
+	if c.SerialBig != "" {
+		// the number the text denotes (1e3 and 1.0 are numbers too); anything that is not a whole number counts as 0 = unset
+		serial = "(0)%Z"
+		if f, _, err := big.ParseFloat(c.SerialBig, 10, 4096, big.ToNearestEven); err == nil && f.IsInt() {
+			z, _ := f.Int(nil)
+			serial = "(" + z.String() + ")%Z"
+		}
+	}
+	return "(mkCertCfg " + cqB(c.Subject) + " " + serial + " " + cqB(c.IssuerUID) + " " + cqB(c.SubjectUID) + " " + c.Validity.Coq() + " " +
 		cqB(c.KeyAlg) + " " + cqB(c.SigAlg) + " " + cqList(c.Exts, Ext.Coq) + " " + c.Manip.Coq() + ")"
 }
 
